@@ -80,6 +80,11 @@ def observe(job):
     try:
         ne = get_equivalent(net, cfg["eq"], list(cfg["bnd"]), list(cfg["seed"]), calculate_voltage_angles=True)
         out["outcome"] = "none" if ne is None else "returned"
+    except LoadflowNotConverged as e:
+        # one of get_equivalent's own power flows on the intermediate / equivalent network did not converge: counted like
+        # a non-converging equivalent (rule: non-converged cases are vacuous), not flagged
+        out["err"] = "LoadflowNotConverged inside get_equivalent: %s" % str(e)[:80]
+        out["outcome"] = "eq_not_converged"
     except ValueError as e:
         out["err"] = "ValueError: %s" % str(e)[:120]
         out["outcome"] = "rejected" if "do not allow unsupplied boundary" in str(e) else "error"
